@@ -58,6 +58,9 @@ CHECKS = {
   "C10": dict(level="model_checking", design="3.4, 4 (C10)",
       text="The outcome MxNegotiate prescribes for two endpoints restricted to one mutually supported (version, suite) is stated as MxInterop_Trace; every combination of role assignment x TLS 1.1/1.2/1.3 x 23 suite/key pairs x {plain, client authentication, resumption by session id / ticket / TLS 1.3 ticket, client auth + ticket, each ECDHE / TLS 1.3 group, each signature algorithm with and without client auth, HelloRetryRequest flows incl. resumption} is executed between the library and OpenSSL 3.5's libssl over memory BIOs with payloads of 1 to 40000 bytes in both directions, and TLC judges each run: both complete with that version and suite, every payload arrives intact both ways on the first and on the resumed connection, both stacks agree that the second connection was resumed.",
       technique="trace validation (MxInterop_Trace, derived from the model-checked MxNegotiate) of executions against an independent implementation (OpenSSL libssl)"),
+  "C20": dict(level="model_checking", design="3.5, 4 (C20)",
+      text="MxConc (threads whose operations are Begin / mutex-protected critical section / End, ticket key rotation against resumption attempts, nested ECDHE-cache -> PRNG locking) is model-checked for mutual exclusion, progress under weak fairness (no deadlock) and Serializable - the rule that says what the Begin / End stamps of a global counter allow one to conclude about a resumption outcome. Randomized multi-threaded scripts (2-8 threads: full handshakes, resumption by session id / ticket / TLS 1.3 PSK, data, closure, deletion, concurrent ticket key rotation; directed scripts with overlapping lifetimes that share and cycle cache entries) run against ONE shared key set and the global session cache on the ThreadSanitizer build of the library, several processes at a time; every data race / lock-order report is an alarm, and the merged stamp-ordered log of every run is validated by MxConc_Trace: mutexes acquired only when free and released by their holder, nesting order acyclic, every connection complete with intact data and both ends agreeing on 'resumed', resumption outcomes allowed by Serializable.",
+      technique="TLA+ spec MxConc checked by TLC (safety + progress) + ThreadSanitizer runs whose stamped logs are validated against MxConc_Trace"),
   "C05": dict(level="model_checking", design="3.6, 4 (C05)",
       text="MxName states the matching rule (exact case-insensitive match per kind, '*' for exactly one left-most label, CN only without supported SAN); TLC tabulates it over a universe of patterns x expected names and checks order independence, CN-only-without-SAN and one-label wildcards as invariants. Real leaf certificates with generated SAN lists (0-3 entries from a pool with wildcards in every position, partial wildcards, case variants, trailing dots, control characters, trailing/double/embedded NULs, e-mail, IP, URI entries; every order of sampled pairs/triples) x CN choices are run through matrixValidateCertsExt for each expected name of a grammar, and every verdict is validated by TLC against Match (soundness; completeness on names without trailing dot).",
       technique="TLA+ spec MxName checked by TLC + validation of the library's verdicts on generated certificates (MxName_Trace)"),
@@ -84,7 +87,9 @@ FAULT_NOTE = ("Trusted base: the sanitizers; osdep_malloc.h's documented overrid
               "Single faults (and random pairs in the thorough tier); allocation failures inside libc / OpenSSL are not injected; multi-threaded scenarios are not covered.")
 INTEROP_NOTE = ("Trusted base: OpenSSL 3.5 libssl as the reference implementation; TLC. The model-checked part is MxNegotiate (C07); MxInterop_Trace only states its consequence for singleton configurations plus the data round trip. "
                 "Not covered: DTLS, PSK suites, static ECDH suites, external TLS 1.3 PSKs, early data; OpenSSL runs with SSL_OP_LEGACY_SERVER_CONNECT (the pinned build has RFC 5746 signalling compiled out) and security level 0.")
-NOTES = {"C10": INTEROP_NOTE, "C19": FAULT_NOTE, "C08": GARB_NOTE, "C18": FRAME_NOTE, "C07": NEGO_NOTE, "C16": DTLS_NOTE, "C14": RES_NOTE, "C04": AUTH_NOTE, "C05": NAME_NOTE, "C01": SESSION_NOTE, "C06": SESSION_NOTE, "C15": SESSION_NOTE, "C02": CHAN_NOTE, "C17": CHAN_NOTE, "C03": PKI_NOTE}
+CONC_NOTE = ("Trusted base: ThreadSanitizer's happens-before analysis on the schedules that actually occur (24 runs quick, 300 thorough; not all interleavings); TLC; link-time wrappers of psLockMutex / psUnlockMutex and a global atomic stamp counter. "
+             "Client-side handles (sslSessionId_t) are not shared between threads (the application owns them); the CRL cache is not exercised.")
+NOTES = {"C20": CONC_NOTE, "C10": INTEROP_NOTE, "C19": FAULT_NOTE, "C08": GARB_NOTE, "C18": FRAME_NOTE, "C07": NEGO_NOTE, "C16": DTLS_NOTE, "C14": RES_NOTE, "C04": AUTH_NOTE, "C05": NAME_NOTE, "C01": SESSION_NOTE, "C06": SESSION_NOTE, "C15": SESSION_NOTE, "C02": CHAN_NOTE, "C17": CHAN_NOTE, "C03": PKI_NOTE}
 
 def main():
     hooks_commits = subprocess.run(["git", "-C", "/repo", "log", "--format=%h %s", "--grep=^verif:"], capture_output=True, text=True).stdout.strip().splitlines()
